@@ -751,6 +751,11 @@ class Interp:
         return GenV(e, env)
 
     def e_ListComp(self, e, env):
+        from . import symcoll
+        if len(e.generators) == 1:
+            it = self.ev(e.generators[0].iter, env)
+            if isinstance(it, (symcoll.NameDict, symcoll.NameSet)):
+                return symcoll.names_comprehension(self, e, env, it)
         return list(self.comprehend(e, env))
 
     def e_SetComp(self, e, env):
